@@ -412,6 +412,8 @@ impl Structured {
 fn families(a: &Args) -> Vec<Family> {
     let t = a.thorough();
     let depth = if t { 2 } else { 1 };
+    // the three large fault families validate accepted results to depth 1 in both tiers (depth 2 on ~3 M documents x 5 targets does not finish in hours)
+    let fdepth = 1;
     let mut fams: Vec<Family> = vec![];
     // ---- round trips over shapes
     for directed in [true, false] {
@@ -494,12 +496,12 @@ fn families(a: &Args) -> Vec<Family> {
             name: "faults-json-text",
             thorough_only: false,
             count: total,
-            bounds: format!("every truncation and every (position x replacement from {:?}) of {} JSON seed documents (all distinct serialisations of the StableGraph universe N<=2/M<=2), fed to StableGraph<u32,Directed>, StableGraph<u8,Undirected>, Graph<u32,Directed>, Graph<u8,Undirected> and GraphMap deserializers; accepted documents are validated in lockstep to depth {}", String::from_utf8_lossy(&REPL), sd.len(), depth),
+            bounds: format!("every truncation and every (position x replacement from {:?}) of {} JSON seed documents (all distinct serialisations of the StableGraph universe N<=2/M<=2), fed to StableGraph<u32,Directed>, StableGraph<u8,Undirected>, Graph<u32,Directed>, Graph<u8,Undirected> and GraphMap deserializers; accepted documents are validated in lockstep to depth {}", String::from_utf8_lossy(&REPL), sd.len(), fdepth),
             run: Box::new(move |idx, ctx| {
                 let (si, text) = mutate(idx, &sd1, &pre, &lens);
                 ctx.nontrivial = true;
                 for tg in TARGETS {
-                    feed(ctx, tg, Some(&text), None, depth, &|| format!("target {:?} mutated seed #{} text {:?}", tg, si, text));
+                    feed(ctx, tg, Some(&text), None, fdepth, &|| format!("target {:?} mutated seed #{} text {:?}", tg, si, text));
                 }
             }),
             describe: Box::new(move |idx| json!({"mutated json": mutate2(idx, &sd2, &pre2, &lens2).1})),
@@ -544,7 +546,7 @@ fn families(a: &Args) -> Vec<Family> {
                 let text = st.get(idx).to_string();
                 ctx.nontrivial = true;
                 for tg in TARGETS {
-                    feed(ctx, tg, Some(&text), None, depth, &|| format!("target {:?} document {}", tg, text));
+                    feed(ctx, tg, Some(&text), None, fdepth, &|| format!("target {:?} document {}", tg, text));
                 }
             }),
             describe: Box::new(move |idx| st2.get(idx)),
@@ -576,7 +578,7 @@ fn families(a: &Args) -> Vec<Family> {
                 let (si, bytes) = mutate(idx, &sb, &pre);
                 ctx.nontrivial = true;
                 for tg in [Target::StableDirU32, Target::GraphDirU32] {
-                    feed(ctx, tg, None, Some(&bytes), depth, &|| format!("target {:?} mutated bincode seed #{} bytes {:?}", tg, si, bytes));
+                    feed(ctx, tg, None, Some(&bytes), fdepth, &|| format!("target {:?} mutated bincode seed #{} bytes {:?}", tg, si, bytes));
                 }
             }),
             describe: Box::new(move |idx| json!({"mutated bincode": mutate2(idx, &sb2, &pre2).1})),
